@@ -594,7 +594,7 @@ def check_C06(ctx):
 
 def check_C08(ctx):
     return run_message_property(ctx, dict(
-        theorems=["C08_optional_always", "C08_oneof_always", "C08_oneof_enum_always", "C08_always_emits", "C08_message_presence", "C08_presence_round_trip"],
+        theorems=["C08_optional_always", "C08_oneof_always", "C08_oneof_enum_always", "C08_oneof_message_never_omitted", "C08_always_message_emits", "C08_always_emits", "C08_message_presence", "C08_presence_round_trip"],
         suites=lambda c: [_msg_suite(c, 4000, 60000)] + fresh_suites(c, [("msg", ["msg", c.seed + 14, _n(c, 2500, 20000), "presence.proto:"]), ("msg", ["msg", c.seed + 15, _n(c, 3000, 30000), ".proto:"])]),
         prop={"msg": lambda r: r["impl"] != "PANIC" and r["flags"].get("c08o") == "ok" and r["flags"].get("c08r") == "ok"},
         tie={"msg": tie_bytes}, spec={"msg": spec_msg}, nontrivial=nontrivial_any, shrink_flag="c08",
